@@ -1202,6 +1202,10 @@ class DataStoreMachine(StoreMachine):
             sets += [('AUTOUGH2/1', None, None), ('AUTOUGH2/2', None, None),
                      ('AUTOUGH2/3', None, None)]
         d, main, mesh = sets[ch[1] % len(sets)]
+        if len(sets) == 3 and ch[1] % 6 == 5 and ch[0] % 3 == 2:
+            # the quick tier sees the smallest of the big AUTOUGH2 files now and then (it holds
+            # numbers like '- 5.0' and 5-character block names of every kind)
+            d, main, mesh = 'AUTOUGH2/1', None, None
         base = os.path.join(REPO, 'tests', 'data', d)
         files = sorted(os.listdir(base))
         if main is None:
